@@ -253,6 +253,42 @@ DESC = {
                 "serialising into a formatter that carries flags (serde's Serializer for &mut fmt::Formatter inside format!(\"{:>12.2}\", ..)): pkg:ge/name or padded types; to_string() and serde_json are unaffected"),
     "r11c16b-2": ("C16", "Serialize gained a guard that refuses PURLs whose namespace or subpath is 'not normalised'; its helper applies the subpath dot rule to the namespace too.",
                 "a parser-accepted PURL with a '..' or '.' namespace segment (pkg:generic/a/../b/name): serialisation fails while to_string() works"),
+    "r12c12-1": ("C12", "'Length first' comparator: the text writer sorts the entries by name length and only then by name.",
+                 "two algorithm names of different length where the longer one sorts first (blake2b / md5, sha3-256 / sha512); the md5 / sha1 / sha256 / sha512 family is ordered the same either way"),
+    "r12c12-2": ("C12", "Hex is lower-cased block-wise with chunks_exact(8); the remainder() is appended as stored.",
+                 "a digest whose hex length is not a multiple of 8 and an upper-case A-F among the trailing digits, entered through text, with_qualifier or insert_raw"),
+    "r12c12-3": ("C12", "Checksum::try_from(&str) copies the name and calls lowercase_in_place instead of copy_as_lowercase; that helper decides with is_uppercase(), so titlecase letters stay.",
+                 "an algorithm name with a titlecase letter (U+01C5 ...) and no other non-ASCII upper-case letter, arriving through the TEXT path (PURL string, with_qualifier, Checksum::try_from); insert / insert_raw still lower-case it"),
+    "r12c14-1": ("C14", "Same idea as r10c12-1, written independently for C14: the parser strips TAB / CR / LF from the input and parses again.",
+                 "a tab or newline in or next to the type: the user's conversion receives \"type\" for pkg:ty\\tpe/name instead of the input being refused without a conversion"),
+    "r12c14-2": ("C14", "The checksum text writer skips algorithms whose digest is empty.",
+                 "an 'algorithm:' entry with an empty hex string (legal): a hook-written checksum=SHA1: becomes the empty text, re-inserted after build() has dropped empty qualifiers, and the PURL prints ?checksum="),
+    "r12c14-3": ("C14", "Checksum::try_from(&str) trims each comma-separated entry before checking it.",
+                 "white space at the start or end of a checksum entry (sha1:ab%20): a malformed checksum is accepted as sha1:ab, whether the hook, the builder or the parser supplied it"),
+    "r12c16-1": ("C16", "Qualifiers gains a text_len byte counter kept up to date by insert / remove / retain / clear / Entry, inside the derived PartialEq / Hash / Ord.",
+                 "a builder-made PURL one of whose qualifier values was overwritten IN PLACE with a value of another length through a handed-out &mut SmallString (IndexMut, get_mut, iter_mut, and_modify, ...): text identical, but deserialised != original"),
+    "r12c16-2": ("C16", "The checksum canonicalisation block moves from build() to the end of the parser's decode_qualifiers.",
+                 "a checksum set through the untyped route (with_qualifier(\"checksum\", ...)) in a non-canonical spelling: the built PURL keeps the raw spelling and changes in the round trip"),
+    "r12c16-3": ("C16", "Same idea as r7c12-2, written independently for C16: decode_qualifiers splits at '&' and ';' while the formatter leaves ';' unescaped.",
+                 "a literal ';' in a qualifier value: the library's own output is refused, or silently becomes two qualifiers"),
+    "r13c12-1": ("C12", "Checksum canonicalisation moves out of build() into with_qualifier (for the key checksum) and the end of the parser's decode_qualifiers.",
+                 "the raw text reaching the builder by another route: parts.qualifiers through Entry / insert / IndexMut / get_mut (also after into_builder()), Qualifiers::try_from_iter, or a finish hook that sets a checksum"),
+    "r13c12-2": ("C12", "Checksum::get::<T>() filters out an empty digest before decoding, so it answers None for an entry that get_raw, iter and the text still show.",
+                 "an entry with zero bytes read through the decoding accessor get::<T>()"),
+    "r13c12-3": ("C12", "The text conversion refuses algorithm names that are not printable ASCII (is_ascii_graphic) next to its hex check; build() and the parser go through the same conversion.",
+                 "a name with a space, a control character or a non-ASCII character (sha 1, é, %C3%89)"),
+    "r13c14-1": ("C14", "from_str checks starts_with(\"pkg:\") and then trim_start_matches(\"pkg:\") instead of stripping the prefix once.",
+                 "an input whose scheme is immediately repeated: for pkg:pkg:npm/name the conversion receives npm and a PURL is produced, where the type as written (pkg:npm) is invalid"),
+    "r13c14-2": ("C14", "is_valid_package_type and is_valid_qualifier_name are folded into one helper whose common special characters are . - _.",
+                 "an underscore in the type: pkg:ab_cd/name reaches the user's conversion and hook instead of being refused first"),
+    "r13c14-3": ("C14", "The escape sets are rebuilt through a const helper over a shared list and the query set silently loses '&' (a regression of fix 4ab7c81).",
+                 "a '&' in a qualifier value, e.g. one written by the hook: reported correctly by the accessors, printed raw"),
+    "r13c16-1": ("C16", "Display renders '@version' into a SmallString, writes it with one write_str and .expect()s the result.",
+                 "a PURL with a version and a writer / formatter that fails inside the version piece: a panic instead of Err"),
+    "r13c16-2": ("C16", "A new deserialize_in_place visitor keeps the existing value when its canonical text eq_ignore_ascii_case the incoming string.",
+                 "the in-place entry point (directly, or through a reused Vec element) over an existing value that differs from the incoming string only in ASCII case"),
+    "r13c16-3": ("C16", "from_str is split into parse_builder + build(); a new visit_borrowed_str assembles the PURL from the builder's fields without build().",
+                 "a deserializer that hands the string over borrowed (from_str / from_slice without escapes, &Value, BorrowedStrDeserializer) and an input that is not canonical already"),
 }
 
 
@@ -279,6 +315,8 @@ def main():
     before9 = table(os.path.join(ROOT, "RESULTS-round9-before-strengthening.tsv"))
     before10 = table(os.path.join(ROOT, "RESULTS-round10-before-strengthening.tsv"))
     before11 = table(os.path.join(ROOT, "RESULTS-round11-before-strengthening.tsv"))
+    before12 = table(os.path.join(ROOT, "RESULTS-round12-before-strengthening.tsv"))
+    before13 = table(os.path.join(ROOT, "RESULTS-round13-before-strengthening.tsv"))
     for name, (prop, what, needs) in sorted(DESC.items()):
         d = os.path.join(ROOT, name)
         if not os.path.isdir(d):
@@ -296,10 +334,12 @@ def main():
         b9 = before9.get(name, {})
         b10 = before10.get(name, {})
         b11 = before11.get(name, {})
+        b12 = before12.get(name, {})
+        b13 = before13.get(name, {})
         meta = {
             "id": name,
             "property_broken": prop,
-            "origin": f"fresh sub-agent '{name.split('-')[0]}', change #{name.split('-')[1]}; it was given only the text of {prop} and a scratch worktree of /repo, nothing from /verif" + ("; round 2: it was also told which ideas round 1 had produced and asked for different ones" if name.startswith("r2") else "") + ("; round 3: it was also told which ideas rounds 1 and 2 had produced, and pointed at rarely exercised public API paths, call order, thresholds and continued use after a failure" if name.startswith("r3") else "") + ("; round 4: told the ideas of rounds 1-3 and asked to read the code paths end to end for small-effect defects" if name.startswith("r4") else "") + ("; round 5: told the ideas of rounds 1-4, with a focus per property: hash order / entry count / call sequences (C12), combinations of conversion, hook and input shape (C14), misbehaving sinks and sources only (C16)" if name.startswith("r5") else "") + ("; round 6: told the ideas of rounds 1-5 and asked to widen the search to the whole crate and to single build configurations" if name.startswith("r6") else "") + ("; round 7: told the ideas of rounds 1-6 and pointed at semantic slips (escaping sets, separators, parser/formatter and builder/parser asymmetries, type parameters, into_builder state, error paths)" if name.startswith("r7") else "") + ("; round 8: told the ideas of rounds 1-7" if name.startswith("r8") else "") + ("; round 9: told the ideas of rounds 1-8 (the C16 agent of this round did not deliver)" if name.startswith("r9") else "") + ("; round 10: told the ideas of rounds 1-9 (the C16 agent of this round did not deliver)" if name.startswith("r10") else "") + ("; round 11: C16 only, split into a deserialise-side and a serialise-side agent, two changes each" if name.startswith("r11") else ""),
+            "origin": f"fresh sub-agent '{name.split('-')[0]}', change #{name.split('-')[1]}; it was given only the text of {prop} and a scratch worktree of /repo, nothing from /verif" + ("; round 2: it was also told which ideas round 1 had produced and asked for different ones" if name.startswith("r2") else "") + ("; round 3: it was also told which ideas rounds 1 and 2 had produced, and pointed at rarely exercised public API paths, call order, thresholds and continued use after a failure" if name.startswith("r3") else "") + ("; round 4: told the ideas of rounds 1-3 and asked to read the code paths end to end for small-effect defects" if name.startswith("r4") else "") + ("; round 5: told the ideas of rounds 1-4, with a focus per property: hash order / entry count / call sequences (C12), combinations of conversion, hook and input shape (C14), misbehaving sinks and sources only (C16)" if name.startswith("r5") else "") + ("; round 6: told the ideas of rounds 1-5 and asked to widen the search to the whole crate and to single build configurations" if name.startswith("r6") else "") + ("; round 7: told the ideas of rounds 1-6 and pointed at semantic slips (escaping sets, separators, parser/formatter and builder/parser asymmetries, type parameters, into_builder state, error paths)" if name.startswith("r7") else "") + ("; round 8: told the ideas of rounds 1-7" if name.startswith("r8") else "") + ("; round 9: told the ideas of rounds 1-8 (the C16 agent of this round did not deliver)" if name.startswith("r9") else "") + ("; round 10: told the ideas of rounds 1-9 (the C16 agent of this round did not deliver)" if name.startswith("r10") else "") + ("; round 13: three agents (C12, C14, C16), three changes each, told the ideas of rounds 1-12 and given a focus (PURL-level half of C12, the call protocol of C14, the I/O side of C16)" if name.startswith("r13") else "") + ("; round 12: three agents (C12, C14, C16), three changes each, told the ideas of rounds 1-11" if name.startswith("r12") else "") + ("; round 11: C16 only, split into a deserialise-side and a serialise-side agent, two changes each" if name.startswith("r11") else ""),
             "change": what,
             "needs_in_order_to_manifest": needs,
             "files": {"patch": "patch.diff", "demonstration": "demo.rs (drop into purl/tests/)", "author_notes": "notes.md"},
@@ -327,6 +367,16 @@ def main():
                 "verdict": r.get("verdict"),
             },
         }
+        if b13:
+            meta["checks_when_round_13_arrived"] = {
+                "note": "round 13 (three agents x three changes), result with the checks at 1d534f6, measured in a scratch copy of /repo and /verif (suite run: tools/verify_seeded.sh)",
+                "C12": b13.get("C12"), "C14": b13.get("C14"), "C16": b13.get("C16"), "verdict": b13.get("verdict"),
+            }
+        if b12:
+            meta["checks_when_round_12_arrived"] = {
+                "note": "round 12 (three agents x three changes), result with the checks at 5daa08a. All nine were reported by at least one check; r12c12-3 and r12c16-1 were reported only by C14, not by the check of the property they were written against, which is why C12's respelling now also uses titlecase letters and C16's builder documents overwrite a qualifier value in place (commit 1d534f6)",
+                "C12": b12.get("C12"), "C14": b12.get("C14"), "C16": b12.get("C16"), "verdict": b12.get("verdict"),
+            }
         if b11:
             meta["checks_when_round_11_arrived"] = {
                 "note": "round 11 (C16 only, two agents x two changes). The lane through serde's Formatter serializer with width / precision flags was added after reading the agent's summary of r11c16b-1 and before any measurement, so that change counts as missed on arrival",
